@@ -1,5 +1,5 @@
 SPECIFICATION SpecDesign
-CONSTANT Deviations = {"CloseDoesNotReanalyse", "RenameTaintsCache", "StaleDiagnosticsForDroppedFile", "PrepareRenameSlicesPastEol", "SourceLinePastEof", "CompletionSplitsInsideChar", "DidChangeFirstEntryWins", "NonFileUriPanics", "MalformedParamsPanic", "UnknownRequestNeverAnswered", "NonUtf8PathPanics", "WorkspaceSymbolRecursesImports", "SemanticTokenPastEndOfLine", "CodeLensOfImportedTests"}
+CONSTANT Deviations = {"CloseDoesNotReanalyse", "RenameTaintsCache", "StaleDiagnosticsForDroppedFile", "PrepareRenameSlicesPastEol", "SourceLinePastEof", "CompletionSplitsInsideChar", "DidChangeFirstEntryWins", "NonFileUriPanics", "MalformedParamsPanic", "UnknownRequestNeverAnswered", "NonUtf8PathPanics", "WorkspaceSymbolRecursesImports", "SemanticTokenPastEndOfLine", "CodeLensOfImportedTests", "PrepareRenameWordStartInsideChar"}
 CONSTANT MaxHist = 0
 VIEW DesignView
 INVARIANT InvFreshAnalysis
